@@ -7,16 +7,30 @@ CACHE = os.path.join(common.WORK, 'e2e_cache')
 
 
 # ------------------------------------------------------------------------------------------------ files
-def write_cmap(path, maps, shuffle_rng=None, extra_cols=False):
+def scrambled(maps):
+    """the molecules in a fixed pseudo-random order that depends only on their ids: CMAP files are not required to list molecules by
+    ascending id, so the generated files do not (the reader's own ordering must provide whatever order the program relies on)"""
+    return sorted(maps, key=lambda m: hashlib.md5(str(m[0]).encode()).hexdigest())
+
+
+def write_cmap(path, maps, shuffle_rng=None, extra_cols=False, scramble=True):
     """maps: list of (id, length, [positions]); positions/length with at most one decimal"""
     rows = []
-    for (mid, length, pos) in maps:
+    for (mid, length, pos) in (scrambled(maps) if scramble else maps):
         n = len(pos)
         for i, p in enumerate(pos):
             rows.append((mid, length, n, i + 1, 1, p))
         rows.append((mid, length, n, n + 1, 0, length))
     if shuffle_rng is not None:
         shuffle_rng.shuffle(rows)
+        if scramble:
+            # the molecules make their FIRST appearance in the opposite order to the unshuffled file (one row of each is moved to the
+            # front), so that a reader which keeps first-appearance order sees every pair of molecules in both orders
+            lead = []
+            for m in reversed(scrambled(maps)):
+                k = next(i for i, r in enumerate(rows) if r[0] == m[0])
+                lead.append(rows.pop(k))
+            rows = lead + rows
     with open(path, 'w') as f:
         f.write("# CMAP File Version:\t0.1\n# Label Channels:\t1\n# Nickase Recognition Site 1:\tunknown\n# Number of Consensus Maps:\t%d\n" % len(maps))
         f.write("#h CMapId\tContigLength\tNumSites\tSiteID\tLabelChannel\tPosition\tStdDev\tCoverage\tOccurrence\n")
